@@ -468,9 +468,11 @@ def _parse_schema(
             from .unified_cycle_detection import SchemaState
 
             context.unified_cycle_context.schema_states[schema_name] = SchemaState.NOT_STARTED
-        # Don't call unified_exit_schema again, continue to normal parsing
+        # The exit above balanced the first enter. Enter again so that the normal parsing below (whose
+        # try/finally exits exactly once) stays balanced and the schema is tracked as in progress.
+        detection_result = context.unified_enter_schema(schema_name)
 
-    elif detection_result.action == CycleAction.RETURN_PLACEHOLDER:
+    if detection_result.action == CycleAction.RETURN_PLACEHOLDER:
         # Schema is already a placeholder - return it
         context.unified_exit_schema(schema_name)  # Balance the enter call
         if detection_result.placeholder_schema:
